@@ -306,6 +306,7 @@ def check_c02(idx: Index, tier: str, res: Result) -> None:
                        "unit depends only on the context and U's root operator). Plus operand order of every arithmetic/"
                        "comparison dunder of Element and Operator.")
     res.rules = ["R1: nf(parse(T[h:=U])) == nf(graft(parse(T), h, parse(U))) for all (T, h, U)",
+                 "OPID: every return path's parsed template equals the class's reference expression (normal form)",
                  "ORDER: dunder builds (self, other) / reflected (other, self) with the right operator class and sign"]
     res.not_decided = ["that eval() of the text computes ordinary arithmetic (trusted: CPython)", "values near discontinuities",
                        "float re-association error of sums/products (a+(b-c) -> a+b-c is accepted: same real value)"]
@@ -319,6 +320,8 @@ def check_c02(idx: Index, tier: str, res: Result) -> None:
         raise AnalysisError("vocabulary classes without an extracted template: %s" % sorted(missing))
     inners = inner_texts(renderers, vocab)
     triples = _r1_table(res, renderers, vocab, inners, tier, "R1", "C02")
+    nid = operator_identity(res, renderers, vocab)
+    res.floor("operator-identity instances", nid, 40)
     nd = _dunder_checks(idx, res)
     res.floor("operator dunders on Element/Operator", nd, 30)
     res.extra.update(stats)
@@ -484,7 +487,7 @@ def _shape_converter(idx: Index, res: Result) -> None:
               key="SHAPE/Element/generate_function")
 
 
-def _r2(idx: Index, res: Result, renderers: List[Renderer]) -> None:
+def _r2(idx: Index, res: Result, renderers: List[Renderer], floor: int = 120) -> None:
     ext_ok, ext_fi = extract_handles_element(idx)
     guards = ctor_guards(idx)
     res.ob("R2", "extractTerm renders Elements at the requested time", ext_ok, "" if ext_ok else "only Operators")
@@ -541,7 +544,7 @@ def _r2(idx: Index, res: Result, renderers: List[Renderer]) -> None:
                   "template %s" % r.text[:110],
                   "the template contains the literal name 't': inside a stock equation it is evaluated at t, not at the "
                   "requested time t-model.dt", key="R2/%s.term/literal-t" % r.cls)
-    res.floor("operand holes examined for time pass-through", nholes, 120)
+    res.floor("operand holes examined for time pass-through", nholes, floor)
     # the two array helpers: str(element) only for number-valued leaves, extractTerm gets the time through
     for hname in ("_array_resolve", "_matrix_element_to_string"):
         hf = idx.func(OPS, hname)
@@ -776,3 +779,66 @@ def check_c01(idx: Index, tier: str, res: Result) -> None:
     res.extra.update(stats)
     res.extra["r1_triples"] = triples
     res.samples += [{"class": r.cls, "template": r.text[:160]} for r in renderers if r.cls in ("Step", "Delay", "Pulse", "Lookup")][:6]
+
+
+# ---------------------------------------------------------------------------
+# operator identity (reference table): what each class's template must compute
+# ---------------------------------------------------------------------------
+
+REFERENCE = {
+    "AdditionOperator": "element_1 + element_2",
+    "SubtractionOperator": "element_1 - element_2",
+    "MultiplicationOperator": "element_1 * element_2",
+    "DivisionOperator": "element_1 / element_2",
+    "NumericalMultiplicationOperator": "element_2 * element_1",
+    "ModOperator": "element_1 % element_2",
+    "PowerOperator": "element ** power",
+    "ComparisonOperator": "element_1 SIGN element_2",
+    "If": "then_ if if_ else else_",
+    "And": "lhs and rhs",
+    "Or": "lhs or rhs",
+    "Not": "not condition",
+    "MinOperator": "min(element_1, element_2)",
+    "MaxOperator": "max(element_1, element_2)",
+    "AbsOperator": "abs(element)",
+    "Sqrt": "x ** (1 / 2)",
+    "Exp": "np.exp(element)",
+    "Round": "round(operator, digits)",
+    "ArrayMeanOperator": "np.mean([ELEMS])",
+    "ArrayMedianOperator": "np.median([ELEMS])",
+    "ArrayStandardDeviationOperator": "np.std([ELEMS])",
+    "ArraySumOperator": "SUM",
+    "ArrayProductOperator": "PROD",
+}
+
+
+def operator_identity(res: Result, renderers: List[Renderer], classes: Set[str], rule: str = "OPID") -> int:
+    """Every non-degenerate return path of the class computes what the class name says."""
+    n = 0
+    for r in renderers:
+        if r.cls not in classes or r.cls not in REFERENCE:
+            continue
+        if not hole_keys(r.parts):
+            continue                      # degenerate path ("0.0" for an unresolved arrayed equation)
+        names = {}
+        for role, h in hole_keys(r.parts):
+            names[role] = role.replace("[]", "").replace("[*]", "")
+        ref = REFERENCE[r.cls]
+        for sign in (SIGNS if "SIGN" in ref else ["<"]):
+            txt = render(r.parts, "t", names, rep_n=2, sign=sign)
+            want = ref.replace("SIGN", sign)
+            if "ELEMS" in want:
+                want = want.replace("ELEMS", "element_0, element_1")
+            elif want == "SUM":
+                want = "element_0 + element_1"
+            elif want == "PROD":
+                want = "element_0 * element_1"
+            try:
+                ok = nf(parse_expr(txt)) == nf(parse_expr(want))
+            except SyntaxError:
+                ok = False
+            n += 1
+            res.check(rule, "%s path '%s' computes %s" % (r.cls, r.text[:50], want), ok, r.fi.loc(), r.fi.qual, r.text[:120],
+                      "a return path of %s.term renders '%s', which is not %s" % (r.cls, txt[:100], want),
+                      key="%s/%s.term/%s" % (rule, r.cls, parts_text(r.parts)[:60]))
+    return n
